@@ -49,6 +49,9 @@ pub const ALPHABET: &[&str] = &[
     "[General]x",
     "[general]",
     "[]",
+    "[[Metadata]]",
+    "[Events]]",
+    "[[General]",
     "Mode: 1",
     "Mode: x",
     "Title: a // b",
